@@ -263,6 +263,7 @@ type mutation struct {
 	// leaks too is the same shared cell (class interior); only when the plain write stays separate is
 	// the leak specific to the reference (class ref).
 	sibling string
+	hidden  bool // twin of a ref write: used by explainRef only, never enumerated
 }
 
 func firstKey(a *parr) (pent, bool) {
@@ -280,7 +281,20 @@ func firstInner(a *parr) (*parr, pent, bool) {
 	return k.v.arr, k, true
 }
 
+// mutations: the enumerated alphabet (allMutations without the hidden twins).
 func mutations() []mutation {
+	var out []mutation
+	for _, m := range allMutations() {
+		if !m.hidden {
+			out = append(out, m)
+		}
+	}
+	return out
+}
+
+// allMutations additionally contains the plain twins of the reference writes: the same slot is written
+// with a value no other mutation uses, so the twin is effective in every history (a second `= 90` is not).
+func allMutations() []mutation {
 	needScalarFirst := func(a *parr) (pent, bool) {
 		k, ok := firstKey(a)
 		if !ok || k.v.arr != nil {
@@ -467,8 +481,35 @@ func mutations() []mutation {
 			}
 			return "array_pop(" + lv + ");"
 		}, apply: func(a *parr) bool { a.e = a.e[:len(a.e)-1]; return true }},
+		{name: "set-first-alt", hidden: true, class: "cell", src: func(lv string, a *parr) string {
+			k, ok := firstKey(a)
+			if !ok {
+				return ""
+			}
+			return fmt.Sprintf("%s[%s] = 190;", lv, k.lit())
+		}, apply: func(a *parr) bool {
+			k, _ := firstKey(a)
+			a.set(pent{str: k.str, ki: k.ki, ks: k.ks}, iv(190))
+			return true
+		}},
+		{name: "nested-set-alt", hidden: true, class: "nested", src: func(lv string, a *parr) string {
+			in, k, ok := firstInner(a)
+			if !ok {
+				return ""
+			}
+			k1, ok := firstKey(in)
+			if !ok {
+				return ""
+			}
+			return fmt.Sprintf("%s[%s][%s] = 194;", lv, k.lit(), k1.lit())
+		}, apply: func(a *parr) bool {
+			in, _, _ := firstInner(a)
+			k1, _ := firstKey(in)
+			in.set(pent{str: k1.str, ki: k1.ki, ks: k1.ks}, iv(194))
+			return true
+		}},
 		// ---- writes through an explicit reference taken on an ELEMENT of the written name ----
-		{name: "ref-param", class: "ref", sibling: "set-first", src: func(lv string, a *parr) string {
+		{name: "ref-param", class: "ref", sibling: "set-first-alt", src: func(lv string, a *parr) string {
 			k, ok := firstKey(a)
 			if !ok {
 				return ""
@@ -479,7 +520,7 @@ func mutations() []mutation {
 			a.set(pent{str: k.str, ki: k.ki, ks: k.ks}, iv(90))
 			return true
 		}},
-		{name: "ref-param-nested", class: "ref", sibling: "nested-set", src: func(lv string, a *parr) string {
+		{name: "ref-param-nested", class: "ref", sibling: "nested-set-alt", src: func(lv string, a *parr) string {
 			in, k, ok := firstInner(a)
 			if !ok {
 				return ""
@@ -495,7 +536,7 @@ func mutations() []mutation {
 			in.set(pent{str: k1.str, ki: k1.ki, ks: k1.ks}, iv(94))
 			return true
 		}},
-		{name: "ref-local", class: "ref", sibling: "set-first", src: func(lv string, a *parr) string {
+		{name: "ref-local", class: "ref", sibling: "set-first-alt", src: func(lv string, a *parr) string {
 			k, ok := firstKey(a)
 			if !ok {
 				return ""
@@ -506,7 +547,7 @@ func mutations() []mutation {
 			a.set(pent{str: k.str, ki: k.ki, ks: k.ks}, iv(90))
 			return true
 		}},
-		{name: "ref-foreach", class: "ref", sibling: "set-first", src: func(lv string, a *parr) string {
+		{name: "ref-foreach", class: "ref", sibling: "set-first-alt", src: func(lv string, a *parr) string {
 			if _, ok := firstKey(a); !ok {
 				return ""
 			}
@@ -516,7 +557,7 @@ func mutations() []mutation {
 			a.set(pent{str: k.str, ki: k.ki, ks: k.ks}, iv(90))
 			return true
 		}},
-		{name: "ref-closure", class: "ref", sibling: "set-first", src: func(lv string, a *parr) string {
+		{name: "ref-closure", class: "ref", sibling: "set-first-alt", src: func(lv string, a *parr) string {
 			k, ok := firstKey(a)
 			if !ok {
 				return ""
@@ -527,7 +568,7 @@ func mutations() []mutation {
 			a.set(pent{str: k.str, ki: k.ki, ks: k.ks}, iv(90))
 			return true
 		}},
-		{name: "ref-nested-sort", class: "ref", sibling: "nested-set", src: func(lv string, a *parr) string {
+		{name: "ref-nested-sort", class: "ref", sibling: "nested-set-alt", src: func(lv string, a *parr) string {
 			in, k, ok := firstInner(a)
 			if !ok || len(in.e) < 2 {
 				return ""
